@@ -104,3 +104,42 @@ Theorem mean_out_of_range_raises amin amax a sg (rg : nat -> R) n cu p0 :
   run [false] = Need (amax < a) /\ run [false; true] = Exc "ValueError".
 Proof. unfold ARGS. repeat split; run; reflexivity. Qed.
 End Law.
+
+(* ------------------------------------------------------------------------------------------- *)
+(* the re-draw of LensDistribution.draw_lens (inner slope / mass-to-light outside the interpolation range) re-enters draw_lens with
+   EXACTLY the caller's sixteen arguments, by name: every population parameter keeps its declared value on every re-draw (in
+   particular the scatters: a dropped one would silently fall back to its default 0 and freeze that parameter) *)
+Section Redraw.
+Definition log_redraw : callee :=
+  CTail (fun args kws w => Ok (VStr "<re-drawn>", World (rng w) (cur w) (("draw_lens", map (fun kv => VTuple [VStr (fst kv); snd kv]) kws) :: olog w) (decs w) (pc w))).
+Definition Gr : fenv := FEnv (fun _ meth => if String.eqb meth "draw_lens" then Some log_redraw else None) (fun _ => None).
+Variables (lo hi x : R) (ifu : bool).
+Definition ld_obj (gin m2l : bool) : val :=
+  VObj "LensDistribution"
+    [("_mst_ifu", VBool ifu); ("_lambda_scaling_property", num x); ("_lambda_scaling_property_beta", num 0);
+     ("_lambda_mst_sampling", VBool true); ("_lambda_mst_distribution", VStr "GAUSSIAN");
+     ("_gamma_in_sampling", VBool gin); ("_gamma_in_distribution", VStr "GAUSSIAN"); ("_gamma_in_min", num lo); ("_gamma_in_max", num hi);
+     ("_log_m2l_sampling", VBool m2l); ("_log_m2l_min", num lo); ("_log_m2l_max", num hi);
+     ("_gamma_pl_model", VBool false); ("_gamma_pl_global_sampling", VBool false)].
+Variables (lam slam gp lifu sifu al be gi sgi agi lm slm alm gmean gsig : R) (glist : val).
+Definition all_kws : list (string * val) :=
+  [("lambda_mst", num lam); ("lambda_mst_sigma", num slam); ("gamma_ppn", num gp); ("lambda_ifu", num lifu); ("lambda_ifu_sigma", num sifu);
+   ("alpha_lambda", num al); ("beta_lambda", num be); ("gamma_in", num gi); ("gamma_in_sigma", num sgi); ("alpha_gamma_in", num agi);
+   ("log_m2l", num lm); ("log_m2l_sigma", num slm); ("alpha_log_m2l", num alm); ("gamma_pl_list", glist); ("gamma_pl_mean", num gmean); ("gamma_pl_sigma", num gsig)].
+Definition forwarded := [("draw_lens", map (fun kv => VTuple [VStr (fst kv); snd kv]) all_kws)].
+Open Scope R_scope.
+(* mass-to-light draw above / below the range: one lambda draw, one M/L draw, then the re-entry *)
+Theorem redraw_m2l_forwards_everything rg cu :
+  lo <= lm <= hi -> (hi < lm + alm * x + slm * rg (S cu) \/ lm + alm * x + slm * rg (S cu) < lo) ->
+  yields Gr FUEL (CFun src_LensDistribution_draw_lens) (Some (ld_obj false true)) [] all_kws rg cu (VStr "<re-drawn>") (S (S cu)) forwarded.
+Proof.
+  intros Hm [Hout | Hout]; unfold ld_obj, all_kws, forwarded; destruct ifu; yields_with real_fact ltac:(reflexivity).
+Qed.
+(* inner-slope draw outside the range *)
+Theorem redraw_gamma_in_forwards_everything rg cu :
+  lo <= gi <= hi -> (hi < gi + agi * x + sgi * rg (S cu) \/ gi + agi * x + sgi * rg (S cu) < lo) ->
+  yields Gr FUEL (CFun src_LensDistribution_draw_lens) (Some (ld_obj true false)) [] all_kws rg cu (VStr "<re-drawn>") (S (S cu)) forwarded.
+Proof.
+  intros Hm [Hout | Hout]; unfold ld_obj, all_kws, forwarded; destruct ifu; yields_with real_fact ltac:(reflexivity).
+Qed.
+End Redraw.
